@@ -1013,10 +1013,26 @@ def rdOp : Rd OpDecl := do
   let edges ← rdRepeat rdEdge 12
   pure ⟨deleted, corners, patches, sideProj, bp, tp, zone, counts, simple, wg.map (·.1), edges, wg.all (·.2)⟩
 
+/-- `EighthSphere.geometry` (all sphere shapes): the `searchableSphere` a sphere shape brings — `origin` and `centre` are
+    `vector_format(center_point)`, the radius is `f"{radius}"` (`str(float)`) -/
+def sphereGeometry (label : String) (c : NumV3) (radius : PyNum) : GEntry :=
+  ⟨label, [[.atom "type", .atom "searchableSphere"], [.atom "origin", pointTree c], [.atom "centre", pointTree c],
+    [.atom "radius", .atom radius.str]]⟩
+
+/-- a geometry entry: `=name <n> <property tokens>…` (opaque strings of the user) or `=name SPH <centre> <radius>` (a sphere
+    shape: printed here; a radius that fails the validator makes the request ill-formed) -/
 def rdGEntry : Rd GEntry := do
   let n ← rdStr
-  let props ← rdList rdTrees
-  pure ⟨n, props⟩
+  match (← get) with
+  | "SPH" :: ws => do
+      set ws
+      let c ← rdNumV3
+      let r ← rdPyNum
+      if !r.ok then failure
+      pure (sphereGeometry n c r)
+  | _ => do
+      let props ← rdList rdTrees
+      pure ⟨n, props⟩
 
 def rdEntity : Rd Entity := do
   let ops ← rdList rdOp
